@@ -141,6 +141,14 @@ def table(prop, lentil, rng):
         def trim_explicit():
             t = R.Spectrum(s1.wave.copy(), v.copy()); t.trim(tol=1e-4); return (t.wave, t.value)
         add('Spectrum.trim(tol)', trim_default, trim_explicit)
+        def pad_default():
+            t = s1.copy(); t.pad((350.0, 660.0)); return (t.wave, t.value)
+        def pad_explicit():
+            t = s1.copy(); t.pad((350.0, 660.0), sampling='min', mode='constant', values=0); return (t.wave, t.value)
+        def pad_explicit2():
+            t = s1.copy(); t.pad((350.0, 660.0), values=(0, 0)); return (t.wave, t.value)
+        add('Spectrum.pad(sampling, mode, values)', pad_default, pad_explicit)
+        add('Spectrum.pad(values=0 is (0, 0))', pad_default, pad_explicit2)
         add('Spectrum.ends(tol)', lambda: R.Spectrum(s1.wave.copy(), v.copy()).ends(), lambda: R.Spectrum(s1.wave.copy(), v.copy()).ends(tol=1e-4))
         add('planck_radiance(waveunit, valueunit)', lambda: R.planck_radiance(q, 5000.0), lambda: R.planck_radiance(q, 5000.0, waveunit='nm', valueunit='wlam'))
         add('planck_exitance(waveunit, valueunit)', lambda: R.planck_exitance(q, 5000.0), lambda: R.planck_exitance(q, 5000.0, waveunit='nm', valueunit='wlam'))
